@@ -119,6 +119,118 @@ def demangle_stream(chk, n):
             chk.nontrivial(["demangle", case["results"]])
 
 
+def lcov_sections_by_record(data):
+    """lcov tracefile -> per section the RECORDS as they are listed (no keying by name: with demangling on several
+    functions of a file may carry one name): name, #FN, #FNDA, #FNDA with a positive count, #DA, #DA > 0, #BRDA, #BRDA taken, summaries"""
+    out, cur = [], None
+    for raw in data.split(b"\n"):
+        key, _, val = raw.partition(b":")
+        if key == b"SF":
+            cur = {"name": val, "FN": 0, "FNDA": 0, "FNDA_hit": 0, "DA": 0, "DA_hit": 0, "BRDA": 0, "BRDA_taken": 0, "summ": {}}
+        elif raw == b"end_of_record":
+            if cur is not None:
+                out.append(cur)
+            cur = None
+        elif cur is None:
+            continue
+        elif key == b"FN":
+            cur["FN"] += 1
+        elif key == b"FNDA":
+            cur["FNDA"] += 1
+            cur["FNDA_hit"] += int(val.split(b",")[0]) > 0
+        elif key == b"DA":
+            cur["DA"] += 1
+            cur["DA_hit"] += int(val.split(b",")[1]) > 0
+        elif key == b"BRDA":
+            cur["BRDA"] += 1
+            cur["BRDA_taken"] += val.split(b",")[3] not in (b"-", b"0")
+        elif key in (b"LF", b"LH", b"BRF", b"BRH", b"FNF", b"FNH"):
+            cur["summ"][key.decode()] = int(val)
+    return out
+
+
+def lcov_summary_findings(F, data, nfiles):
+    """C13 on an lcov report whose function names may coincide: every summary figure against the records listed in the same section"""
+    secs = lcov_sections_by_record(data)
+    if len(secs) != nfiles:
+        F.add("C13", "lcov", "one section per file", "%d sections for %d files" % (len(secs), nfiles))
+    for s in secs:
+        exp = {"LF": s["DA"], "LH": s["DA_hit"], "BRF": s["BRDA"], "BRH": s["BRDA_taken"]}
+        if s["FN"] or s["FNDA"] or "FNF" in s["summ"] or "FNH" in s["summ"]:
+            exp["FNF"], exp["FNH"] = s["FN"], s["FNDA_hit"]
+        if s["summ"] != exp:
+            F.add("C13", "lcov", "LF/LH/BRF/BRH/FNF/FNH equal the counts of the listed records (demangling on)",
+                  "%s: printed %s, the listed records imply %s (%d FN, %d FNDA)" % (s["name"], s["summ"], exp, s["FN"], s["FNDA"]))
+        if s["FN"] != s["FNDA"]:
+            F.add("C13", "lcov", "every listed function has its FNDA record", "%s: %d FN, %d FNDA" % (s["name"], s["FN"], s["FNDA"]))
+        for a, b in (("LH", "LF"), ("BRH", "BRF"), ("FNH", "FNF")):
+            if a in s["summ"] and b in s["summ"] and s["summ"][a] > s["summ"][b]:
+                F.add("C13", "lcov", "covered <= total", "%s: %s=%d > %s=%d" % (s["name"], a, s["summ"][a], b, s["summ"][b]))
+
+
+def demangle_summary_stream(chk, n, prop):
+    """C13 with demangling ON: files whose functions carry mangled names that demangle to one name (C++ overloads, C1/C2-style
+    copies, Rust hash-suffix instantiations, MSVC overloads).  The lcov report is the one format that prints function totals
+    next to the function list: FNF / FNH (and LF/LH, BRF/BRH) must equal the counts of the FN / hit FNDA (DA, BRDA) records
+    listed in the same section.  Through the report engine (output_lcov(.., demangle = true)) and through the real binary
+    (lcov input with the mangled names, no --no-demangle).  Cobertura (methods), coveralls+ (functions), ActiveData (method
+    records) list functions but print no function totals, HTML prints totals but no list: nothing of theirs depends on it."""
+    import os, subprocess
+    rng = chk.rng
+    known = {e["key"]: e for e in vlib.known_findings(prop) if e.get("status") == "known"}
+    stats = {"findings_in_known_classes": {}}
+    cases = []
+    for i in range(n):
+        files = []
+        for j in range(rng.randrange(1, 4)):
+            names = rng.sample(MANGLED, rng.randrange(0, 7))
+            funcs = sorted([[nm.encode().hex(), rng.choice([1, 3, 5, 9]), rng.random() < 0.55] for nm in names], key=lambda x: bytes.fromhex(x[0]))
+            lines = [[l, rng.choice([0, 1, 7])] for l in sorted(rng.sample(range(1, 14), rng.randrange(0, 9)))]
+            branches = [[l, [rng.random() < 0.5 for _ in range(rng.randrange(1, 4))]] for l in sorted(rng.sample(range(1, 14), rng.randrange(0, 3)))]
+            rel = "m%d/f%d.cpp" % (i, j)
+            files.append([G.hx("/w/" + rel), G.hx(rel), {"lines": lines, "branches": branches, "funcs": funcs}, 16])
+        cases.append({"results": files, "types": ["lcov"], "precision": 2, "branch": True, "demangle": True})
+    impl = vlib.run_impl("report", cases, chk.pid, extra_env={"GIT_DIR": "/nonexistent"})
+    collisions = 0
+    for case, res in zip(cases, impl):
+        chk.count()
+        F = G.Findings()
+        if not isinstance(res.get("lcov"), str):
+            F.add("C13", "lcov", "the report is produced", str(res)[:300])
+        else:
+            lcov_summary_findings(F, bytes.fromhex(res["lcov"]), len(case["results"]))
+        bad = G.report_findings(chk, F, prop, known, stats, {"kind": "oracle", "engine": "report", "case": case}, "demangle-summ")
+        if not bad:
+            chk.nontrivial(["demangle-summ", case["results"]])
+    # the same through the real binary: demangling is the default there
+    exe = vlib.build_cli()
+    ncli = max(8, n // 2)
+    for i, case in enumerate(cases[:ncli]):
+        chk.count()
+        root = vlib.scratch("%s_dm_%d" % (prop.lower(), i % 4))
+        src = os.path.join(root, "src")
+        for e in case["results"]:
+            path = os.path.join(src, bytes.fromhex(e[1]).decode())
+            os.makedirs(os.path.dirname(path), exist_ok=True)
+            open(path, "w").write("".join("L%d\n" % k for k in range(1, 17)))
+        open(os.path.join(root, "in.info"), "w").write(render_lcov(case["results"]))
+        cmd = [exe, "in.info", "-s", src, "-t", "lcov", "-o", "out.info", "--branch", "--threads", "2"]
+        replay = {"kind": "oracle", "engine": "cli", "cmd": cmd[1:], "case": case, "input": render_lcov(case["results"])}
+        pr = subprocess.run(cmd, cwd=root, stdout=subprocess.PIPE, stderr=subprocess.PIPE, timeout=60)
+        F = G.Findings()
+        outp = os.path.join(root, "out.info")
+        if pr.returncode != 0 or not os.path.isfile(outp):
+            F.add("C13", "lcov", "the report is produced", "status %s: %s" % (pr.returncode, pr.stderr.decode("utf-8", "replace")[-300:]))
+        else:
+            data = open(outp, "rb").read()
+            lcov_summary_findings(F, data, len(case["results"]))
+            secs = lcov_sections_by_record(data)
+            collisions += any(s["FN"] >= 2 for s in secs)
+        G.report_findings(chk, F, prop, known, stats, replay, "demangle-summ-cli")
+    chk.extra["demangle_summary_stream"] = {"engine_cases": len(cases), "cli_cases": ncli, "mangled_name_pool": MANGLED,
+                                            "cli_reports_with_two_or_more_functions_in_a_file": collisions}
+
+
 # ----------------------------------------------------------------------------------------------------------------
 # CLI stream: the same result sets through the real binary, so that what src/main.rs passes to output_* is observed
 # ----------------------------------------------------------------------------------------------------------------
@@ -315,6 +427,8 @@ def run(chk, prop=PID):
     selftest(chk)
     if prop == PID:
         demangle_stream(chk, 25 if quick else 300)
+    if prop == "C13":
+        demangle_summary_stream(chk, 30 if quick else 300, prop)
     cli_stream(chk, 45 if quick else 500, prop)
     G.big_stream(chk, prop, not quick)
     dist = {"result_sets": len(cases), "empty_set": 0, "files": 0, "files_without_lines": 0, "absolute_paths": 0, "root_files": 0,
